@@ -13,6 +13,7 @@ mod c15;
 mod c14;
 mod c02;
 mod c13;
+mod c19;
 
 fn main() {
     let args: Vec<String> = std::env::args().collect();
@@ -32,6 +33,7 @@ fn main() {
         "c14" => c14::main(rest),
         "c02" => c02::main(rest),
         "c13" => c13::main(rest),
+        "c19" => c19::main(rest),
         other => {
             eprintln!("unknown property {other}");
             std::process::exit(2);
